@@ -136,11 +136,49 @@ Proof. induction l as [|x l IH]; intros Hnd a b Ha Hb E; [destruct Ha|].
   - exfalso. apply Hn. rewrite E. apply in_map. exact Hb.
   - exfalso. apply Hn. rewrite <- E. apply in_map. exact Ha. Qed.
 
-(* the repaired command hash does not depend on the discovery order *)
-Theorem fp_cmds_sorted_order_independent : forall a a' : analysis,
-  NoDup (map cmd_key (a_cmds a)) -> Permutation (a_cmds a) (a_cmds a') -> fp_cmds_sorted a = fp_cmds_sorted a'.
-Proof. intros a a' Hnd Hp. unfold fp_cmds_sorted. f_equal. f_equal.
+(* the command part of the fingerprint does not depend on the discovery order *)
+Theorem fp_cmds_order_independent : forall a a' : analysis,
+  NoDup (map cmd_key (a_cmds a)) -> Permutation (a_cmds a) (a_cmds a') -> fp_cmds a = fp_cmds a'.
+Proof. intros a a' Hnd Hp. unfold fp_cmds. f_equal. f_equal.
   apply isort_perm_invariant; [exact cmd_leb_total|exact cmd_leb_trans| |exact Hp].
   intros x y Hx Hy H1 H2. eapply nodup_key_inj; eauto. apply cmd_leb_antisym_keys; auto. Qed.
 
-(* while the hash of the pinned code does: see C14_refuted_file_order *)
+(* ---- structs sorted by name ---- *)
+Lemma struct_leb_total (a b : struct) : struct_leb a b = true \/ struct_leb b a = true.
+Proof. apply str_leb_total. Qed.
+Lemma struct_leb_trans (a b c : struct) : struct_leb a b = true -> struct_leb b c = true -> struct_leb a c = true.
+Proof. apply str_leb_trans. Qed.
+
+Theorem fp_structs_order_independent : forall a a' : analysis,
+  NoDup (map s_name (a_structs a)) -> Permutation (a_structs a) (a_structs a') -> fp_structs a = fp_structs a'.
+Proof. intros a a' Hnd Hp. unfold fp_structs. f_equal. f_equal.
+  apply isort_perm_invariant; [exact struct_leb_total|exact struct_leb_trans| |exact Hp].
+  intros x y Hx Hy H1 H2. eapply nodup_key_inj; eauto. apply str_leb_antisym; auto. Qed.
+
+(* ---- two valid schedules enumerate the same files ---- *)
+Lemma perm_of_seq w n : is_perm_of_seq w n = true -> Permutation (seq 0 n) w.
+Proof. unfold is_perm_of_seq. intros H. apply andb_prop in H. destruct H as [Hl Hf].
+  apply Nat.eqb_eq in Hl. apply NoDup_Permutation_bis.
+  - apply seq_NoDup.
+  - rewrite seq_length. lia.
+  - intros i Hi. rewrite forallb_forall in Hf. specialize (Hf i Hi). apply existsb_exists in Hf.
+    destruct Hf as (j & Hj & E). apply Nat.eqb_eq in E. subst. exact Hj. Qed.
+
+Lemma analyse_perm (w1 w2 : sched) (p : project) :
+  is_perm_of_seq (w_files w1) (length p) = true -> is_perm_of_seq (w_files w2) (length p) = true ->
+  Permutation (a_cmds (analyse w1 p)) (a_cmds (analyse w2 p)) /\
+  Permutation (a_structs (analyse w1 p)) (a_structs (analyse w2 p)).
+Proof. intros H1 H2. apply perm_of_seq in H1. apply perm_of_seq in H2.
+  assert (Hp : Permutation (pick empty_file p (w_files w1)) (pick empty_file p (w_files w2))).
+  { unfold pick. apply Permutation_map. eapply perm_trans; [apply Permutation_sym; exact H1|exact H2]. }
+  unfold analyse. cbn [a_cmds a_structs]. split; apply Permutation_flat_map; exact Hp. Qed.
+
+(* the whole fingerprint is the same under every valid discovery order *)
+Theorem fp_order_independent : forall (p : project) (c : config) (w1 w2 : sched),
+  valid_sched w1 p c = true -> valid_sched w2 p c = true ->
+  NoDup (map cmd_key (a_cmds (analyse w1 p))) -> NoDup (map s_name (a_structs (analyse w1 p))) ->
+  fp w1 p c = fp w2 p c.
+Proof. intros p c w1 w2 V1 V2 Hk Hs. unfold valid_sched in *.
+  apply andb_prop in V1. apply andb_prop in V2. destruct V1 as [V1 _], V2 as [V2 _].
+  destruct (analyse_perm w1 w2 p V1 V2) as [Pc Ps]. unfold fp.
+  rewrite (fp_cmds_order_independent _ _ Hk Pc), (fp_structs_order_independent _ _ Hs Ps). reflexivity. Qed.
